@@ -13,7 +13,7 @@ import json
 import os
 import re
 
-from mc.drivers import bpm
+from mc.drivers import bpm, ladder
 from mc.drivers.scenarios import SCENARIOS
 from mc.engine import e2
 from mc.engine.core import Collector, Result, Violation, jstrict
@@ -348,6 +348,7 @@ def run(tier: str, seed: int) -> Result:
     r = e2.explore(SCENARIOS, oracle, PLAN[tier])
     for sig, msg, case in r.fails:
         col.add(sig, msg, case)
+    n_ladder = ladder.run_ladder(tier, check_model, col, hosts=("fn",))
     cf, n_cls = check_model_classes()
     for sig, msg in cf:
         col.add(sig, msg, {"model_classes": True})
@@ -355,12 +356,12 @@ def run(tier: str, seed: int) -> Result:
         "states": r.states,
         "transitions": r.transitions,
         "traces_validated_against_impl": r.transitions,
-        "evaluations": r.complete_programs + n_cls,
+        "evaluations": r.complete_programs + n_cls + n_ladder,
         "distinct_nontrivial": r.nontrivial,
         "rule": "every complete module-rooted builder program of the plan (functions with nested DFGs, order edges, constants, calls incl. "
         "recursion/polymorphic/row-polymorphic, function values, conditionals, loops, CFGs); Hugr.to_model() is walked in parallel with "
         "the HUGR: region structure, listed ports, link-name partition vs connectivity, symbols, inlined constants, order hints, metadata; "
-        "plus model dataclass fields vs the getattr() calls in python.rs",
+        "plus model dataclass fields vs the getattr() calls in python.rs; plus the size ladders of mc/drivers/ladder.py (module-hosted)",
         "samples": r.samples or [{"scenario": "M1", "program": []}],
         "exhaustive": True,
         "plan": PLAN[tier],
@@ -368,11 +369,15 @@ def run(tier: str, seed: int) -> Result:
         "programs_where_a_builder_call_raised": r.builder_raised,
         "model_classes_compared": n_cls,
         "feature_counts": r.features,
+        "ladder_cases": n_ladder,
+        "ladder": {"families": sorted(ladder.FAMILIES), "sizes": ladder.SIZES[tier], "caps": ladder.CAPS, "host": "module function"},
     }
     return Result(cov, col.violations, ["R6: this file (from hugr-core/src/export.rs, import.rs link rules)", "str()/bytes() of model objects need the native module and are not exercised"])
 
 
 def replay(case) -> list[Violation]:
+    if "ladder" in case:
+        return [Violation(s, m, case) for s, m in ladder.replay_ladder(case, check_model)]
     if "model_classes" in case:
         return [Violation(s, m, case) for s, m in check_model_classes()[0]]
     sc = SCENARIOS[case["scenario"]]
